@@ -395,6 +395,140 @@ fn split_case(ctx: &Ctx, shard: usize, index: u64, rep: &mut Report) {
     rep.distinct.insert(fnv64(&pic));
 }
 
+/// Twin comparison for an explicit (history, failing input, continuation) triple; also checks that
+/// the snapshot is unchanged across the failing call.
+fn twin_check(sorenson: bool, hist: &[Vec<u8>], x: &[u8], cont: &[Vec<u8>], what: &str, rep: &mut Report, coords: &dyn Fn() -> J) -> bool {
+    let mut a = Dec::new(sorenson, false);
+    let mut b = Dec::new(sorenson, false);
+    rep.evaluations += 1;
+    for p in hist {
+        if a.decode(p) != Outcome::Ok || b.decode(p) != Outcome::Ok {
+            rep.count("ladder_void:history-failed");
+            return false;
+        }
+    }
+    let before = a.snapshot();
+    match a.decode(x) {
+        Outcome::Ok => {
+            rep.count("ladder_void:not-failed");
+            return false;
+        }
+        Outcome::Panic { msg, loc } => {
+            rep.violation(format!("panic@{}", loc), format!("{}: {}", what, msg), coords());
+            return false;
+        }
+        Outcome::Err(k) => rep.count(&format!("ladder_failure:{}", k)),
+    }
+    if a.snapshot() != before {
+        rep.violation("ladder/state-changed", format!("{}: the most recent picture changed across the failed call (now present: {})", what, a.snapshot().is_some()), coords());
+        return false;
+    }
+    for (i, v) in cont.iter().enumerate() {
+        let (oa, ob) = (a.decode(v), b.decode(v));
+        if oa != ob || !snapshot_eq(&a, &b) {
+            rep.violation("ladder/twin-diverged", format!("{}: continuation picture {}: decoder that saw the failing input gave {}, its twin {} (snapshots equal: {})", what, i, oa.short(), ob.short(), snapshot_eq(&a, &b)), coords());
+            return false;
+        }
+    }
+    true
+}
+
+fn poison_last_mb(p: &mut crate::model::syntax::SymPicture) {
+    let n = p.mbs.len();
+    p.mbs[n - 1] = SymMb::Coded { kind: MbKind::Intra, dquant: 1, mvd: [[0; 2]; 4], blocks: std::array::from_fn(|i| SymBlock { intradc: Some(if i == 5 { 0 } else { 77 }), events: vec![] }) };
+}
+
+/// Boundary-value ladder for atomicity: large pictures failing at their very end after a disposable
+/// picture; failed pictures that switch optional modes on; failures after 4 KiB / 64 KiB / 1 MiB
+/// of consumed data in a shared reader.
+pub fn ladder(ctx: &Ctx, k: usize, rep: &mut Report) {
+    use super::ladder as L;
+    let mut rng = Rng::new(ctx.seed ^ 0xC05AD, k as u64);
+    let coords = || J::obj().set("property", "C05").set("kind", "ladder").set("tier", ctx.tier_name()).set("seed", ctx.seed).set("stage", ctx.stage.clone()).set("k", k);
+    match k {
+        0..=5 => {
+            // large picture failing at its last macroblock, after a history that ends with a disposable picture
+            let (w, h) = [(1024usize, 1024usize), (1040, 1024), (2064, 1024), (65535, 16), (16, 65535), (512, 512)][k];
+            let flavour = Flavour::Sor((k % 2) as u8);
+            let mut cfg = L::cfg_for(&mut rng, flavour, w, h, 0);
+            let i0 = L::large_intra(&mut rng, &cfg).encode();
+            cfg.tr = cfg.tr.wrapping_add(1);
+            let d0 = L::large_inter(&mut rng, &cfg, true, None).encode();
+            cfg.tr = cfg.tr.wrapping_add(1);
+            let mut xi = L::large_intra(&mut rng, &cfg);
+            poison_last_mb(&mut xi);
+            cfg.tr = cfg.tr.wrapping_add(1);
+            let c0 = L::large_inter(&mut rng, &cfg, false, None).encode();
+            if twin_check(true, &[i0, d0], &xi.encode(), &[c0], &format!("large {}x{} I,D then an I picture failing in its last macroblock", w, h), rep, &coords) {
+                rep.count("ladder_large_after_disposable");
+            }
+        }
+        6..=25 => {
+            // standard mode: a failing PLUSPTYPE picture that switches optional modes on, then baseline pictures
+            let cfg = L::cfg_for(&mut rng, Flavour::StdFixed, 128, 96, 0);
+            let i0 = gen_reference(&mut rng, &cfg).encode();
+            let inter = rng.chance(1, 2);
+            let hd = L::plus_header_with_modes(&mut rng, 128, 96, inter);
+            let bad = SymMb::Coded { kind: MbKind::Intra, dquant: 1, mvd: [[0; 2]; 4], blocks: std::array::from_fn(|_| SymBlock { intradc: Some(0), events: vec![] }) };
+            let x = crate::model::syntax::SymPicture { hdr: Hdr::Std(hd), w: 128, h: 96, mbs: vec![bad], stuffing: vec![] }.encode();
+            let mut cont = vec![];
+            let mut c = cfg.clone();
+            for _ in 0..2 {
+                c.tr = c.tr.wrapping_add(1);
+                cont.push(gen_inter(&mut rng, &c, &InterCfg { ptype: 0, big_vectors_pct: 60, residual_pct: 30, truncate: None, allow_q: true }).encode());
+            }
+            if twin_check(false, &[i0], &x, &cont, "standard mode: failing PLUSPTYPE picture with optional modes, then baseline P pictures", rep, &coords) {
+                rep.count("ladder_failed_modes_not_carried");
+            }
+        }
+        _ => {
+            // failure after a lot of consumed data, in a reader shared with a valid lead picture
+            let bytes = [3000usize, 4090, 5000, 65530, 70000, 1_100_000][(k - 26) % 6];
+            let flavour = Flavour::Sor(0);
+            let cfg = L::cfg_for(&mut rng, flavour, 16, 16, 0);
+            let lead = gen_intra(&mut rng, &cfg).encode();
+            let mut xp = L::stuffed_picture(&mut rng, flavour, bytes, false);
+            poison_last_mb(&mut xp);
+            let x = xp.encode();
+            let mut all = lead.clone();
+            all.extend_from_slice(&x);
+            all.extend_from_slice(&[0xA5, 0x5A, 0xC3, 0x3C]);
+            let mut d = Dec::new(true, false);
+            rep.evaluations += 1;
+            let r = catch(|| {
+                let (src, _data, delivered) = CountRead::new(&all);
+                let mut rd = H263Reader::from_source(src);
+                let o1 = crate::sut::outcome_of(catch(|| d.st.decode_next_picture(&mut rd)));
+                let p0 = abs_pos(&rd, &delivered);
+                let o2 = crate::sut::outcome_of(catch(|| d.st.decode_next_picture(&mut rd)));
+                let p1 = catch(|| abs_pos(&rd, &delivered)).unwrap_or(usize::MAX);
+                let got: Result<u32, _> = rd.read_bits(24);
+                (o1, o2, p0, p1, got.ok())
+            });
+            match r {
+                Err(p) => rep.violation(format!("panic@{}", p.loc), format!("failure after {} consumed bytes: {}", bytes, p.msg), coords()),
+                Ok((o1, o2, p0, p1, got)) => {
+                    if o1 != Outcome::Ok {
+                        rep.count("ladder_void:lead-failed");
+                    } else if let Outcome::Err(_) = o2 {
+                        if p1 != p0 || got.map(|g| g as u64) != bits_at(&all, p0, 24) {
+                            rep.violation("ladder/reader-position", format!("after a call that failed having consumed about {} bytes the reader is at bit {} (was {}), next bits {:?} (source has {:?})", bytes, p1, p0, got, bits_at(&all, p0, 24)), coords());
+                        } else {
+                            rep.count("ladder_large_consumption_rollback");
+                        }
+                    } else if let Outcome::Panic { msg, loc } = o2 {
+                        rep.violation(format!("panic@{}", loc), format!("failure after {} consumed bytes: {}", bytes, msg), coords());
+                    } else {
+                        rep.count("ladder_void:not-failed");
+                    }
+                }
+            }
+        }
+    }
+}
+
+pub const LADDER_N: usize = 32;
+
 pub fn run(ctx: &Ctx) -> (Report, String) {
     let per_shard = ctx.n(2000, 40000);
     let splits_per_shard = ctx.n(16, 400);
@@ -409,6 +543,17 @@ pub fn run(ctx: &Ctx) -> (Report, String) {
         rep
     });
     let mut rep = Report::merge_all(reps);
+    if !ctx.miri() && ctx.is_main() {
+        let lr = par_shards(LADDER_N, ctx.threads, |k| {
+            let mut r = Report::new();
+            crate::mon::guarded(&mut r, || J::obj().set("property", "C05").set("kind", "ladder").set("k", k), |r| ladder(ctx, k, r));
+            r
+        });
+        rep.merge(Report::merge_all(lr));
+        rep.require("ladder_large_after_disposable", 6);
+        rep.require("ladder_failed_modes_not_carried", 15);
+        rep.require("ladder_large_consumption_rollback", 6);
+    }
     if ctx.is_main() {
         let m = ctx.scale_pct;
         rep.require("continuation_steps_compared", if ctx.tier == Tier::Thorough { 1_500_000 } else { 80_000 } * m / 100);
@@ -422,6 +567,10 @@ pub fn run(ctx: &Ctx) -> (Report, String) {
 pub fn replay(ctx: &Ctx, j: &J, rep: &mut Report) {
     let shard = j.get("shard").and_then(|s| s.as_i64()).unwrap_or(0) as usize;
     let index = j.get("index").and_then(|s| s.as_i64()).unwrap_or(0) as u64;
+    if j.get("kind").and_then(|w| w.as_str()) == Some("ladder") {
+        ladder(ctx, j.get("k").and_then(|k| k.as_i64()).unwrap_or(0) as usize, rep);
+        return;
+    }
     if j.get("what").and_then(|w| w.as_str()) == Some("split") {
         split_case(ctx, shard, index, rep);
     } else {
